@@ -6,7 +6,7 @@ from pysym.harness import run_cases
 LEVEL = 'exploration'
 DEDUCTIVE = [('contracts.hashes', ('Fingerprints', 'CANARY')), ('contracts.fingerprints', None)]          # (contract module, case-name filter) run by engine P
 FINISH = dict(rule='deductive: one obligation per path / table key; B: see run.bound entries of checks/b17.py',
-              explanation='P: folded indices are exactly the number_active_bits lowest log2(length)-bit windows of every 64-bit hash (lengths 2^1..2^20, active bits 1..8), identifiers hash exactly (isotope|0, Z, charge, radical); B: path sets, iterated hashing, invariance under renumbering',
+              explanation='F: no memoised value read by this property\'s observables survives an edit it depends on (one obligation per covered mutator x cached key); P: folded indices are exactly the number_active_bits lowest log2(length)-bit windows of every 64-bit hash (lengths 2^1..2^20, active bits 1..8), identifiers hash exactly (isotope|0, Z, charge, radical); B: path sets, iterated hashing, invariance under renumbering',
               trusted_base=['CPython', 'z3', 'pysym', 'oracles/o17_ref.py'])
 replay = make_replay('C17')
 
